@@ -6,6 +6,7 @@ import (
 	"sync/atomic"
 
 	"github.com/evolbioinfo/gotree/tree"
+	"github.com/evolbioinfo/gotree/verifhook"
 )
 
 /*
@@ -44,6 +45,7 @@ func FBP(reftree *tree.Tree, boottrees <-chan tree.Trees, cpus int, sup *Support
 		go func(cpu int) {
 			var inerr error
 			for treeV := range boottrees {
+				verifhook.Point("fbp.recv", cpu, treeV.Id)
 				edgeIndex := tree.NewEdgeIndex(uint64(len(edges)*2), 0.75)
 				if sup.Canceled() {
 					break
@@ -77,6 +79,7 @@ func FBP(reftree *tree.Tree, boottrees <-chan tree.Trees, cpus int, sup *Support
 						}
 					}
 				}
+				verifhook.Point("fbp.done", cpu, treeV.Id)
 				sup.IncrementProgress()
 			}
 			wg.Done()
